@@ -250,3 +250,22 @@ def sin_cos_f(xlo, xhi):
     sl, sh = to_frac(s)
     cl_, ch = to_frac(c)
     return (sl - half, sh + half), (cl_ - half, ch + half)
+
+
+def asin_iv(x):
+    """enclosure of asin of a rational interval inside [0, 1]: asin x = atan(x / sqrt(1 - x^2)), pi/2 at 1"""
+    lo, hi = x
+    one = (SC, SC)
+
+    def at(v):
+        if v >= SC:
+            p = pi()
+            return div_int(p, 2)
+        if v <= 0:
+            return (0, 0)
+        vv = (v, v)
+        s = sqrt_iv(sub(one, mul(vv, vv)))
+        return atan_iv(div(vv, s))
+    a = at(lo)
+    b = at(hi)
+    return (a[0], b[1])
